@@ -30,6 +30,7 @@ def vcs_for(contract, case, solver_timeout=3000):
             cl = c[1] if isinstance(c, tuple) else c
             st.assume(_t(cl))
         contract.snapshot(I, ns)
+        I.measure0 = contract.measure(ns)
         st.vc('cover:pre', z3.BoolVal(False), kind='cover')
         try:
             res = I.call_function(fv, ns.args, getattr(ns, 'kwargs', {}) or {},
